@@ -3,6 +3,7 @@ from collections.abc import Callable
 
 from pynenc import context
 from pynenc.conf.config_task import ConcurrencyControlType
+from pynenc.exceptions import InvocationStatusError
 from pynenc.invocation.status import InvocationStatus
 
 if TYPE_CHECKING:
@@ -74,6 +75,21 @@ def get_app_and_runner_ctx() -> tuple["Pynenc", "RunnerContext"]:
 core_tasks_registry = CoreTaskRegistry()
 
 
+def _reroute_recovered(
+    app: "Pynenc", invocation_ids: "set[InvocationId]", runner_ctx: "RunnerContext"
+) -> None:
+    """Re-queue each recovered invocation on its own.
+
+    An invocation that somebody else re-routed in the meantime must not keep
+    the other recovered invocations from being re-queued.
+    """
+    for invocation_id in invocation_ids:
+        try:
+            app.orchestrator.reroute_invocations({invocation_id}, runner_ctx)
+        except InvocationStatusError as ex:
+            app.logger.info(f"invocation:{invocation_id} already re-routed: {ex}")
+
+
 @core_tasks_registry.task(
     running_concurrency=ConcurrencyControlType.TASK,
     config_cron="recover_pending_invocations_cron",
@@ -85,12 +101,18 @@ def recover_pending_invocations() -> None:
     invocations_to_reroute: set[InvocationId] = set()
     # Recover PENDING invocations that exceeded timeout
     for invocation_id in app.orchestrator.get_pending_invocations_for_recovery():
-        invocations_to_reroute.add(invocation_id)
         app.logger.info(f"Recovering timed-out pending invocation:{invocation_id}")
-        app.orchestrator.set_invocation_status(
-            invocation_id, InvocationStatus.PENDING_RECOVERY, runner_ctx
-        )
-    app.orchestrator.reroute_invocations(invocations_to_reroute, runner_ctx)
+        try:
+            app.orchestrator.set_invocation_status(
+                invocation_id, InvocationStatus.PENDING_RECOVERY, runner_ctx
+            )
+        except InvocationStatusError as ex:
+            # The owner made progress after the scan: nothing to recover here,
+            # and the invocations already taken must still be re-queued below
+            app.logger.info(f"invocation:{invocation_id} no longer pending: {ex}")
+            continue
+        invocations_to_reroute.add(invocation_id)
+    _reroute_recovered(app, invocations_to_reroute, runner_ctx)
 
 
 @core_tasks_registry.task(
@@ -103,11 +125,17 @@ def recover_running_invocations() -> None:
     invocations_to_reroute: set[InvocationId] = set()
     # Recover RUNNING invocations owned by inactive runners
     for invocation_id in app.orchestrator.get_running_invocations_for_recovery():
-        invocations_to_reroute.add(invocation_id)
         app.logger.info(
             f"Recovering running invocation:{invocation_id} from inactive runner"
         )
-        app.orchestrator.set_invocation_status(
-            invocation_id, InvocationStatus.RUNNING_RECOVERY, runner_ctx
-        )
-    app.orchestrator.reroute_invocations(invocations_to_reroute, runner_ctx)
+        try:
+            app.orchestrator.set_invocation_status(
+                invocation_id, InvocationStatus.RUNNING_RECOVERY, runner_ctx
+            )
+        except InvocationStatusError as ex:
+            # The owner made progress after the scan: nothing to recover here,
+            # and the invocations already taken must still be re-queued below
+            app.logger.info(f"invocation:{invocation_id} no longer running: {ex}")
+            continue
+        invocations_to_reroute.add(invocation_id)
+    _reroute_recovered(app, invocations_to_reroute, runner_ctx)
